@@ -10,28 +10,48 @@ package fixture
 // ports; Stop takes 1-2 s per node (serf leave) - stop nodes concurrently (StopFedNodes).
 
 import (
+	"context"
 	"fmt"
 	"net"
+	"os"
 	"sort"
 	"strings"
 	"sync"
 	"time"
 
+	"github.com/golang/protobuf/ptypes/empty"
+
 	"github.com/DrmagicE/gmqtt/config"
 	"github.com/DrmagicE/gmqtt/plugin/federation"
 )
 
+var (
+	portMu  sync.Mutex
+	portSeq int
+)
+
 // FreeLoopbackAddr returns a 127.0.0.1:<port> address whose port was free for TCP and UDP a
-// moment ago (serf gossip uses both on the same port).
+// moment ago (serf gossip uses both on the same port). Ports are taken from 10000-30999, below
+// the ephemeral range, so that outgoing connections cannot grab them between the probe and the
+// real bind. Every process walks sequentially through its own slot of 1000 ports (slot = pid
+// mod 21; the shard processes of one run have neighbouring pids): a gossip port is therefore
+// not reused by another process, and by this process only ~1000 allocations later. This
+// matters: memberlist keeps gossiping to the addresses of members that left for 30 s, and a
+// foreign node that starts on such a port is merged into the old cluster (all clusters use
+// the same node names), which shows up as spurious member-fail / join events.
 func FreeLoopbackAddr() (string, error) {
 	var lastErr error
-	for i := 0; i < 20; i++ {
-		l, err := net.Listen("tcp", "127.0.0.1:0")
+	for i := 0; i < 400; i++ {
+		portMu.Lock()
+		portSeq++
+		port := 10000 + (os.Getpid()%21)*1000 + portSeq%1000
+		portMu.Unlock()
+		addr := fmt.Sprintf("127.0.0.1:%d", port)
+		l, err := net.Listen("tcp", addr)
 		if err != nil {
 			lastErr = err
 			continue
 		}
-		addr := l.Addr().String()
 		u, err := net.ListenPacket("udp", addr)
 		l.Close()
 		if err != nil {
@@ -73,7 +93,7 @@ type FedNode struct {
 // collisions (the ports are picked by listen-and-close) are retried with new ports.
 func StartFedNode(o FedNodeOpts) (*FedNode, error) {
 	var lastErr error
-	for attempt := 0; attempt < 4; attempt++ {
+	for attempt := 0; attempt < 6; attempt++ {
 		n, err, retry := startFedNodeOnce(o)
 		if err == nil {
 			return n, nil
@@ -167,6 +187,29 @@ func StartFedCluster(n int, opts func(i int, o *FedNodeOpts)) (*FedCluster, erro
 
 // Stop stops all nodes concurrently.
 func (c *FedCluster) Stop() { StopFedNodes(c.Nodes...) }
+
+// StopQuietly tears a cluster down with as few leftovers as possible (meant for the background,
+// it takes ~5 s): every node first announces its leave through the plugin's membership API, so
+// that the others stop their event-stream loops towards it, then the brokers are stopped one
+// after the other. Background: Federation.Unload neither ends the node's own peer loops (they
+// keep re-dialling the other nodes, whose gRPC servers are never stopped either, and leak a
+// client connection per failed handshake) nor shuts serf down when its Leave times out, which
+// happens when all members leave at the same moment.
+func (c *FedCluster) StopQuietly() { StopFedNodesQuietly(c.Nodes...) }
+
+// StopFedNodesQuietly see FedCluster.StopQuietly.
+func StopFedNodesQuietly(nodes ...*FedNode) {
+	for _, n := range nodes {
+		if n != nil && n.Fed != nil && !n.stopped.Load() {
+			_, _ = n.Fed.Leave(context.Background(), &empty.Empty{})
+		}
+	}
+	for i := len(nodes) - 1; i >= 0; i-- {
+		if nodes[i] != nil {
+			_ = nodes[i].Stop()
+		}
+	}
+}
 
 // StopFedNodes stops the given nodes concurrently (serf leave takes 1-2 s per node).
 func StopFedNodes(nodes ...*FedNode) {
